@@ -406,6 +406,8 @@ def run(rep: Report, repo: Repo, tier: str) -> None:
     # ---- R7: a failure inside CMinx reaches the exit status of whatever executable CMake runs
     with rep.isolated():
         rule_exit_status(rep, repo, "C19-R7")
+    with rep.isolated():
+        rule_inputs_as_given(rep, repo, "C19-R8")
 
 
 def _result_checked(fn: Block, var: str, ep: Command) -> bool:
@@ -422,6 +424,46 @@ def _result_checked(fn: Block, var: str, ep: Command) -> bool:
                     if c.name == "message" and c.args and c.args[0].text == "FATAL_ERROR":
                         return True
     return False
+
+
+def rule_inputs_as_given(rep: Report, repo: Repo, rule: str) -> None:
+    """cminx_gen_rst(<input> ...) must behave like `cminx <input> ...`, and both must fail for an input that does not exist: every
+    word of the positional `files` list reaches document() as written - not globbed, filtered or de-duplicated on the way (a
+    pattern without match would otherwise leave nothing to do, and the run would succeed silently)."""
+    import ast
+    from ..model import call_name, norm, walk_no_nested
+    rep.rule(rule, "main() calls document() once for every element of the parsed positional `files` list, passing the element "
+                   "itself: the loop runs over <parse result>.files directly")
+    mfn = repo.func("cminx", "main")
+    parents = repo.module("cminx").parents
+    ns_vars = {norm(n.targets[0]) for n in walk_no_nested(mfn) if isinstance(n, ast.Assign) and len(n.targets) == 1
+               and isinstance(n.value, ast.Call) and call_name(n.value).split(".")[-1] == "parse_args"}
+    calls = [c for c in ast.walk(mfn) if isinstance(c, ast.Call) and call_name(c) == "document"]
+    if not calls or not ns_vars:
+        raise AnalysisError("anchor vanished: main() does not call document() / parse_args()")
+    for c in calls:
+        a0 = c.args[0] if c.args else None
+        loops = []
+        q = parents.get(c)
+        while q is not None and q is not mfn:
+            if isinstance(q, ast.For):
+                loops.append(q)
+            q = parents.get(q)
+        direct = [lp for lp in loops if isinstance(a0, ast.Name) and norm(lp.target) == a0.id]
+        from .fsrules import resolve_locals
+        it = resolve_locals(direct[0].iter, mfn, skip=frozenset(ns_vars)) if direct else None
+        while isinstance(it, ast.Call) and call_name(it) in ("list", "tuple") and len(it.args) == 1 and not it.keywords:
+            it = it.args[0]
+        ok = len(direct) == 1 and len(loops) == 1 and isinstance(it, ast.Attribute) and it.attr == "files" \
+            and norm(it.value) in ns_vars
+        from ..model import guards_of
+        gs = [norm(g.test) for g in guards_of(mfn, c, parents)]
+        rep.check(ok and not gs, rule, "cminx:main", norm(c)[:60],
+                  f"document() does not receive each command-line input as given (loop over "
+                  f"`{norm(loops[0].iter)[:50] if loops else None}`{', under ' + gs[0][:40] if gs else ''}): an input that is expanded, "
+                  f"filtered or skipped can leave nothing to do, and the run - and with it cminx_gen_rst() - succeeds without output",
+                  witness="cminx_gen_rst(\"missing/dir[v2]\" out): CMake continues although nothing was generated")
+    rep.floor(rule, 1, "document() call sites")
 
 
 def rule_exit_status(rep: Report, repo: Repo, rule: str) -> None:
